@@ -177,6 +177,13 @@ def _history_case(draw, tier, names):
     if draw(st.integers(0, 2)) == 0:
         steps.append(["failpass", draw(st.integers(0, e.n - 1)), draw(st.integers(0, 3))])
     row = catgen.cat_table(max_rows=1, min_rows=1, cells=e.cells).map(lambda t: t[1])
+    # opening: an abandoned pass (header only, or a few rows), then an edit, then a full pass - what an operator tidies up
+    # only at the END of a pass is still lying around then
+    if draw(st.integers(0, 2)) == 0:
+        steps.append(["partial", draw(st.integers(1, 3))])
+        steps.append(["edit", draw(st.integers(0, e.n - 1)), draw(st.sampled_from(["append", "delete", "replace"])),
+                      draw(st.integers(0, 5)), draw(row)])
+        steps.append(["full"])
     for _ in range(nsteps):
         kind = draw(st.sampled_from(["full", "full", "edit", "edit", "partial", "failpass"]))
         if kind == "edit":
@@ -223,6 +230,7 @@ def check_history(case, ctx):
     except Exception as ex:
         return exc_fail(e.name + "/construct", ex)
     P = None
+    P_unstarted = False
     started = False       # some pass (full, partial or failed) has been started on the view
     edited = False
     tainted = False       # an abandoned pass happened before the first completed one
@@ -313,6 +321,11 @@ def check_history(case, ctx):
         else:
             if P is not None:
                 if got != P[:j] or (step[0] != "partial" and got != P):
+                    if P_unstarted and got[1:] == P[1:j]:
+                        # known finding cache-unstarted-input: only the header differs, and during the completed pass one
+                        # non-empty input was never asked for a data row, so its sort (and cache) never came to be
+                        return Fail("%s/cache-replay-header-differs-unstarted-input" % e.name, "cache=True %s pass gave header %r, completed pass "
+                                    "gave %r; during the completed pass an input was never asked for a data row" % (step[0], got[:1], P[:1]))
                     return Fail("%s/cache-replay-differs" % e.name, "cache=True %s pass gave %r, completed pass gave %r" % (step[0], got, P))
                 if any(pulls):
                     return Fail("%s/cache-rereads-sources" % e.name, "cache=True pass after a completed pass pulled %r data rows" % (pulls,))
@@ -324,6 +337,8 @@ def check_history(case, ctx):
                     tainted = True
                 else:
                     P = got
+                    # did the completed pass leave a non-empty input without a single data row pulled?
+                    P_unstarted = any(s_.data_pulls == 0 and len(rows[i]) > 1 for i, s_ in enumerate(srcs))
         if step[0] in ("full", "failpass") and seen_edit:
             fulls_after_edit += 1
     ctx.nontrivial(fulls_after_edit >= 1 and sum(1 for s in case["steps"] if s[0] == "full") >= 2)
@@ -332,6 +347,12 @@ def check_history(case, ctx):
 
 SUBS = [
     Sub("variants", check_variant, strategy=variant_case, quick=20000, thorough=200000),
-    Sub("histories", check_history, strategy=history_case, quick=6000, thorough=100000),
+    Sub("histories", check_history, strategy=history_case, quick=10000, thorough=100000),
 ]
-KNOWN = {}
+
+
+def _known_unstarted(sub, case, fail):
+    return sub == "histories" and fail.bucket.endswith("/cache-replay-header-differs-unstarted-input")
+
+
+KNOWN = {"cache-unstarted-input": _known_unstarted}
